@@ -6,7 +6,7 @@ use crate::alloc::guarded;
 use crate::sut::Foreign;
 use helgoboss_midi::*;
 use std::convert::TryFrom;
-use std::io::{BufWriter, Write};
+pub use crate::chunks::{ChunkWriter, Lcg};
 
 pub const NONE: i64 = -1;
 pub const PANIC: i64 = -2;
@@ -308,61 +308,6 @@ pub fn short_row(s: u8, d1: u8, d2: u8) -> Vec<i64> {
     row.extend_from_slice(&rt2_bytes);
     row.extend_from_slice(&into);
     row
-}
-
-pub struct ChunkWriter {
-    dir: String,
-    per: usize,
-    k: usize,
-    n_in: usize,
-    total: u64,
-    w: Option<BufWriter<std::fs::File>>,
-}
-
-impl ChunkWriter {
-    pub fn new(dir: &str, per: usize) -> ChunkWriter {
-        std::fs::create_dir_all(dir).unwrap();
-        ChunkWriter { dir: dir.to_string(), per, k: 0, n_in: 0, total: 0, w: None }
-    }
-    pub fn push(&mut self, row: &[i64]) {
-        if self.w.is_none() || self.n_in >= self.per {
-            if let Some(mut w) = self.w.take() {
-                w.flush().unwrap();
-            }
-            self.k += 1;
-            self.n_in = 0;
-            let p = format!("{}/chunk_{}.ndjson", self.dir, self.k);
-            self.w = Some(BufWriter::with_capacity(1 << 20, std::fs::File::create(p).unwrap()));
-        }
-        let w = self.w.as_mut().unwrap();
-        w.write_all(b"[").unwrap();
-        for (i, x) in row.iter().enumerate() {
-            if i > 0 {
-                w.write_all(b",").unwrap();
-            }
-            write!(w, "{}", x).unwrap();
-        }
-        w.write_all(b"]\n").unwrap();
-        self.n_in += 1;
-        self.total += 1;
-    }
-    pub fn finish(mut self) -> (usize, u64) {
-        if let Some(mut w) = self.w.take() {
-            w.flush().unwrap();
-        }
-        (self.k, self.total)
-    }
-}
-
-pub struct Lcg(pub u64);
-impl Lcg {
-    pub fn next(&mut self) -> u64 {
-        self.0 = self.0.wrapping_mul(6364136223846793005).wrapping_add(1442695040888963407);
-        self.0 >> 33
-    }
-    pub fn below(&mut self, n: u64) -> u64 {
-        self.next() % n
-    }
 }
 
 pub const BOUNDARY: [u8; 21] =
